@@ -1347,6 +1347,12 @@ def fd_check(case, res):
         e = [fd_steps[4 * n + j].get("energy") for j in range(4)]
         if any(x is None or math.isnan(x) or math.isinf(x) for x in e):
             return "ambiguous", "energy not finite near the base point"
+        e0 = base.get("energy")
+        if e0 is not None and abs(e[0] + e[1] - 2.0 * e0) / H1 > 0.05 * max(abs(e[0] - e[1]) / (2 * H1), abs(forces.get(a, [0.0, 0.0, 0.0])[k]), 1e-3 * fmax) \
+           and abs(e[0] + e[1] - 2.0 * e0) > 64 * noise * H1:
+            # the two one-sided difference quotients disagree: the base point sits on a kink of the energy (a minimum-image cut
+            # between two CENTRES, a wall, a truncation radius); no verdict for this configuration
+            return "ambiguous", "one-sided finite differences disagree at the base point (atom %d axis %d)" % (a + 1, k)
         d1 = (e[0] - e[1]) / (2 * H1)
         d2 = (e[2] - e[3]) / (2 * H2)
         rich = (4 * d2 - d1) / 3.0
@@ -1511,7 +1517,9 @@ def gen_unmodelled(r, n):
         if name == "rot_distance":
             conf = "colvar {\n  name v0\n  distanceZ {\n    main {\n      atomNumbers %s\n      %s\n    }\n    ref {\n      dummyAtom (0.5, 0.25, -1.0)\n    }\n    axis (0.6, 0.8, 0.0)\n  }\n}\n%s" % (ids_str(ids), fitopts, harm)
         elif name == "rot_fit_distance":
-            fit = r.sample(others, 3) if len(others) >= 3 else others
+            # (three fitted atoms at least: with two, the optimal rotation is degenerate -- any rotation about their axis --
+            # and its derivative is not defined)
+            fit = r.sample(others, 3) if len(others) >= 3 else (others + ids[2:4])[:3]
             touched = sorted(set(ids[:2] + fit))
             conf = ("colvar {\n  name v0\n  distanceZ {\n    main {\n      atomNumbers %s\n      centerToReference on\n      rotateToReference on\n"
                     "      refPositions %s\n      fittingGroup {\n        atomNumbers %s\n      }\n    }\n    ref {\n      dummyAtom (0.5, 0.25, -1.0)\n    }\n    axis (0.0, 0.6, 0.8)\n  }\n}\n%s"
